@@ -112,10 +112,13 @@ def extract_many(cfgs, jobs=None):
 # ------------------------------------------------------------------------------------------------
 # harness generation
 # ------------------------------------------------------------------------------------------------
-def harness_for(fn, contract):
+def harness_for(fn, contract, prop=None):
     lines = ['int main(void) {', '  avel_static_init();']
     args = []
     h = getattr(contract, 'harness', None)
+    if prop == 'C08' and getattr(contract, 'harness_C08', None):
+        # value obligations only: the object is the whole vector-sized block; the exact footprint is C09's check
+        h = contract.harness_C08
     if h:
         for l in h['pre']:
             lines.append('  ' + l)
@@ -176,7 +179,7 @@ def build_obligation(prop, cfg, db, fn, contract, replace_contracts=None):
     contracts = {fn['cname']: {'clauses': contract.clauses(), 'loops': contract.loops}}
     for cn, c in replace_contracts.items():
         contracts[cn] = {'clauses': c.clauses()}
-    text, externs, missing = tu.assemble(db, fn['cname'], contracts, replace=set(replace_contracts), harness=harness_for(fn, contract),
+    text, externs, missing = tu.assemble(db, fn['cname'], contracts, replace=set(replace_contracts), harness=harness_for(fn, contract, prop),
                                          includes=MODEL_INCLUDES, spec_includes=SPEC_INCLUDES, model_text=model_text)
     ob = Obligation(prop, cfg, fn, contract, text, externs, set(replace_contracts))
     ob.missing_models = missing
